@@ -48,6 +48,14 @@ func writeTag(r column.Row, t int64) {
 
 const poison = int64(1) << 61
 
+// tailMerge: "=text" replaces the value by text - the result is a sub-slice of the delta
+func tailMerge(v, d string) string {
+	if len(d) > 0 && d[0] == '=' {
+		return d[1:]
+	}
+	return v + d
+}
+
 // judgeTag decides whether the six redundant columns read inside one callback are consistent.
 func judgeTag(idx uint32, a int64, okA bool, u uint32, okU bool, f float64, okF bool, s string, okS bool, e string, okE bool, b bool) (int64, string) {
 	if !okA {
@@ -97,6 +105,9 @@ func tornRound(w *W, idx int) {
 	rng := rngFor(w.Seed, 10, idx)
 	c := stressCollection(1000, false)
 	defer c.Close()
+	// a seventh redundant column, stored through a user merge function whose result is a part of
+	// the delta it was handed ("=text" replaces the value by text)
+	c.CreateColumn("t", column.ForString(column.WithMerge(tailMerge)))
 	// three populated blocks
 	const total = 40000
 	c.Query(func(txn *column.Txn) error {
@@ -111,7 +122,7 @@ func tornRound(w *W, idx int) {
 	}
 	c.Query(func(txn *column.Txn) error {
 		for _, t := range targets {
-			txn.QueryAt(t, func(r column.Row) error { writeTag(r, 0); return nil })
+			txn.QueryAt(t, func(r column.Row) error { writeTag(r, 0); r.MergeString("t", "=0"); return nil })
 		}
 		return nil
 	})
@@ -138,7 +149,11 @@ func tornRound(w *W, idx int) {
 		if hook.overlapping(r.Index() >> 14) {
 			atomic.AddInt64(&overlapped, 1)
 		}
-		if _, bad := readTag(r); bad != "" {
+		a, bad := readTag(r)
+		if t, ok := r.String("t"); bad == "" && (!ok || t != strconv.FormatInt(a, 36)) {
+			bad = fmt.Sprintf("row %d: a=%d (%s) but the merged string column t reads %q (present=%v), a value no transaction committed", r.Index(), a, strconv.FormatInt(a, 36), t, ok)
+		}
+		if bad != "" {
 			report(how + ": " + bad)
 		}
 	}
@@ -147,7 +162,11 @@ func tornRound(w *W, idx int) {
 		if hook.overlapping(txn.Index() >> 14) {
 			atomic.AddInt64(&overlapped, 1)
 		}
-		if _, bad := readTagTxn(txn); bad != "" {
+		a, bad := readTagTxn(txn)
+		if t, ok := txn.String("t").Get(); bad == "" && (!ok || t != strconv.FormatInt(a, 36)) {
+			bad = fmt.Sprintf("row %d: a=%d (%s) but the merged string column t reads %q (present=%v), a value no transaction committed", txn.Index(), a, strconv.FormatInt(a, 36), t, ok)
+		}
+		if bad != "" {
 			report(how + ": " + bad)
 		}
 	}
@@ -164,9 +183,15 @@ func tornRound(w *W, idx int) {
 					tag |= poison
 				}
 				k := 1 + r.Intn(3)
+				first := r.Intn(len(targets))
 				c.Query(func(txn *column.Txn) error {
 					for j := 0; j < k; j++ {
-						txn.QueryAt(targets[r.Intn(len(targets))], func(row column.Row) error { writeTag(row, tag); return nil })
+						// distinct rows: one merge per cell and transaction (DESIGN.md 3.3)
+						txn.QueryAt(targets[(first+j*7)%len(targets)], func(row column.Row) error {
+							writeTag(row, tag)
+							row.MergeString("t", "="+strconv.FormatInt(tag, 36))
+							return nil
+						})
 					}
 					if rollback {
 						return errAbort
@@ -755,7 +780,7 @@ func mixVacuum(w *W, idx, rep int) map[string]int64 {
 
 func init() {
 	register(&Property{ID: "C10", Level: "exploration",
-		Rule:   "one case = one round: 8 writers x 2 500 (6 000) transactions stamp 1-3 of 66 target rows (three blocks) with one tag stored redundantly in six columns of different kinds (10% roll back with a poisoned tag); 8 readers (QueryAt, Range over With(column), Range over With(index)) decode the six columns inside the callback until the writers are done; micro-delays are injected at the commit hooks (also inside the latch, between columns); race-detector build; non-trivial = more than 1 000 reader callbacks; distinct = (round, callbacks/1000)",
+		Rule:   "one case = one round: 8 writers x 2 500 (6 000) transactions stamp 1-3 of 66 target rows (three blocks) with one tag stored redundantly in seven columns of different kinds, one of them through a user merge function that returns part of its delta (10% roll back with a poisoned tag); 8 readers (QueryAt, Range over With(column), Range over With(index)) decode the six columns inside the callback until the writers are done; micro-delays are injected at the commit hooks (also inside the latch, between columns); race-detector build and plain build; third phase (plain build): six writers update rows they own exclusively and read each back right after their own commit (six columns + a bitmap index) while another goroutine grows the collection from 1 to 14 blocks - every growth re-allocates column storage, an update applied meanwhile must not be lost; non-trivial = more than 1 000 reader callbacks; distinct = (round, callbacks/1000)",
 		Assume: []string{"schedules are whatever 16 cores and the injected delays produce; evidence reports callbacks and how many of them overlapped a commit on the same block (counted at the hooks)"},
 		Plan: func(tier string) []Plan {
 			n := 3
@@ -764,9 +789,14 @@ func init() {
 			}
 			// the same rounds under the race-detector build (instrumented timing, checkptr) and under the plain build (throughput)
 			return []Plan{{Cases: n, Workers: 2, Race: true, MaxProcs: 8, Timeout: 40 * time.Minute, HangIsViol: true},
-				{Cases: n, Workers: 2, MaxProcs: 8, Timeout: 40 * time.Minute, HangIsViol: true}}
+				{Cases: n, Workers: 2, MaxProcs: 8, Timeout: 40 * time.Minute, HangIsViol: true},
+				{Cases: n, Workers: 3, MaxProcs: 8, Timeout: 40 * time.Minute, HangIsViol: true}}
 		},
 		Run: func(w *W, phase, idx int) {
+			if phase == 2 {
+				withWatchdog(w, idx, fmt.Sprintf("E3:grow-beside-writers:round%d", idx), 5*time.Minute, func() { growRound(w, idx) })
+				return
+			}
 			withWatchdog(w, idx, fmt.Sprintf("E3:torn:round%d", idx+100*phase), 5*time.Minute, func() { tornRound(w, idx+100*phase) })
 		},
 		MinEvents: map[string]int64{"reader_callbacks": 10000, "reader_callbacks_overlapping_a_commit": 1000},
